@@ -239,6 +239,27 @@ func (f *Flow) fieldOrigin(base ssa.Value, fld *types.Var, v ssa.Value, seen map
 		name = fld.Name()
 	}
 	owner := recvTypeName(base.Type())
+	// a struct VALUE that is a copy of a local struct (x := *p; a phi of such copies; the result record of an
+	// inlined helper): the field of the struct it was copied from
+	if fld != nil && depth < f.maxDepth {
+		switch sv := base.(type) {
+		case *ssa.UnOp:
+			if al, ok := sv.X.(*ssa.Alloc); ok && sv.Op == token.MUL {
+				if _, isStruct := al.Type().Underlying().(*types.Pointer).Elem().Underlying().(*types.Struct); isStruct {
+					f.fieldOrigin(al, fld, v, seen, out, depth+1)
+					return
+				}
+			}
+		case *ssa.Phi:
+			if _, isStruct := sv.Type().Underlying().(*types.Struct); isStruct && !seen[sv] {
+				seen[sv] = true
+				for _, e := range sv.Edges {
+					f.fieldOrigin(e, fld, v, seen, out, depth+1)
+				}
+				return
+			}
+		}
+	}
 	// local struct allocated in this function: forward stores to the field
 	if al, ok := base.(*ssa.Alloc); ok && fld != nil {
 		// whole-struct stores (x := f() with x later addressed): the field of the stored struct value
@@ -246,7 +267,20 @@ func (f *Flow) fieldOrigin(base ssa.Value, fld *types.Var, v ssa.Value, seen map
 		if refs := al.Referrers(); refs != nil {
 			for _, r := range *refs {
 				if st, ok := r.(*ssa.Store); ok && st.Addr == ssa.Value(al) {
+					if u, isLoad := st.Val.(*ssa.UnOp); isLoad && u.Op == token.MUL && u.X == ssa.Value(al) {
+						continue // x = x (a named result returned as itself by an inlined helper)
+					}
 					whole++
+					if u, isLoad := st.Val.(*ssa.UnOp); isLoad && u.Op == token.MUL && depth < f.maxDepth {
+						if src, isAl := u.X.(*ssa.Alloc); isAl && src != al {
+							f.fieldOrigin(src, fld, v, seen, out, depth+1) // copy of another local struct
+							continue
+						}
+					}
+					if ph, isPhi := st.Val.(*ssa.Phi); isPhi && depth < f.maxDepth {
+						f.fieldOrigin(ph, fld, v, seen, out, depth+1)
+						continue
+					}
 					*out = append(*out, Origin{Kind: "field", Desc: "field:" + owner + "." + name, Val: v, Base: st.Val, Fld: fld})
 				}
 			}
